@@ -37,7 +37,7 @@ func (t tconn) AcceptStream(ctx context.Context) (transfer.Stream, error) {
 	return s, nil
 }
 func (t tconn) RemoteAddr() net.Addr { return t.c.RemoteAddr() }
-func (t tconn) Close() error { return t.c.Close() }
+func (t tconn) Close() error         { return t.c.Close() }
 
 // ---- trees ----
 
@@ -119,6 +119,42 @@ func genTree(r *hx.Rand, cs int, maxFiles int) treeSpec {
 		}
 		t.files = append(t.files, treeFile{rel, r.Bytes(size)})
 	}
+	// empty directories in awkward places: a name that is a proper prefix of its
+	// next sibling's (file or directory, empty or not), inside a populated
+	// directory, sorting first / last, next to a zero-length file of a similar name
+	free := func(x string) bool {
+		if used[x] {
+			return false
+		}
+		for u := range used {
+			if strings.HasPrefix(u, x+"/") || strings.HasPrefix(x, u+"/") {
+				return false
+			}
+		}
+		for _, d := range t.dirs {
+			if d == x || strings.HasPrefix(x, d+"/") {
+				return false
+			}
+		}
+		return true
+	}
+	if r.Intn(3) == 0 {
+		base := []string{"build", "d1/cache", "pkg/test", "z", "!first", "~last", "d1/d2/leaf"}[r.Intn(7)]
+		sib := base + []string{".sh", "s", "-old", "0", " "}[r.Intn(5)]
+		if free(base) && free(sib) {
+			t.dirs = append(t.dirs, base)
+			switch r.Intn(3) {
+			case 0:
+				used[sib] = true
+				t.files = append(t.files, treeFile{sib, r.Bytes(r.Intn(2 * cs))})
+			case 1:
+				t.dirs = append(t.dirs, sib) // an empty sibling directory
+			default:
+				used[sib+"/inner.bin"] = true
+				t.files = append(t.files, treeFile{sib + "/inner.bin", r.Bytes(r.Intn(cs + 1))})
+			}
+		}
+	}
 	if r.Intn(3) == 0 {
 		t.dirs = append(t.dirs, "emptydir")
 	}
@@ -179,24 +215,24 @@ func diffTrees(src, dst map[string]string) []string {
 // ---- one transfer between the real endpoints ----
 
 type xferCfg struct {
-	chunkSize int
-	streams   int
-	resume    bool
-	quicLike  bool // stream visibility as in QUIC
-	conns     int  // number of connections (NewMultiConn when > 1)
-	rootDir   bool // receiver creates <out>/<manifest root> (NoRootDir = false)
-	timeout   time.Duration
-	sendOpts  func(*transfer.Options)
-	recvOpts  func(*transfer.Options)
-	onConns   func(sender, receiver *memnet.Conn) // install fault plans
-	cancelSender, cancelReceiver func(cancel context.CancelFunc) // optional: get the cancel functions
+	chunkSize                    int
+	streams                      int
+	resume                       bool
+	quicLike                     bool // stream visibility as in QUIC
+	conns                        int  // number of connections (NewMultiConn when > 1)
+	rootDir                      bool // receiver creates <out>/<manifest root> (NoRootDir = false)
+	timeout                      time.Duration
+	sendOpts                     func(*transfer.Options)
+	recvOpts                     func(*transfer.Options)
+	onConns                      func(sender, receiver *memnet.Conn) // install fault plans
+	cancelSender, cancelReceiver func(cancel context.CancelFunc)     // optional: get the cancel functions
 }
 
 type xferResult struct {
-	sendErr, recvErr error
+	sendErr, recvErr   error
 	sendDone, recvDone bool // returned within the timeout
-	dur              time.Duration
-	manifest         manifest.Manifest
+	dur                time.Duration
+	manifest           manifest.Manifest
 }
 
 func runXfer(srcDir, outDir string, c xferCfg) xferResult {
